@@ -65,6 +65,7 @@ struct Plan {
   bool expect_no_null = true;           // well-formed moderate requests must succeed while no fault has fired
   bool purge_overlap_check = true;      // purge-type OS calls must not overlap live blocks
   bool sample_verify = true;            // verify a sample of live blocks after every operation
+  uint64_t auto_advance_every = 0, auto_advance_ms = 0;   // advance the virtual clock every k operations (C13)
   std::string note;
 };
 
